@@ -160,7 +160,8 @@ class C18(object):
                          'embed.with_refused_duplicate_country_attempts',
                          'embed.with_zone_queries_during_construction',
                          'embed.with_diagnostic_dump_after_every_country',
-                         'embed.with_one_equation_object_given_to_households_of_several_economies')
+                         'embed.with_one_equation_object_given_to_households_of_several_economies',
+                         'rename.compared.federation_with_run_time_built_currency_strings')
 
     def n_cases(self, tier):
         return 24 if tier == 'quick' else 600
@@ -169,6 +170,13 @@ class C18(object):
         m = idx % 6
         if m in (0, 1, 2):
             spec = M.gen_spec(rng, n_zones=rng.choice([1, 1, 2]), maxtime=rng.randint(3, 5))
+            if m == 2:
+                # a federation (central government region + regions sharing the currency): the renamed build names the currency
+                # with a string object of its own for every country
+                for _ in range(100):
+                    if any(z['kind'] == 'federation' for z in spec['zones']):
+                        break
+                    spec = M.gen_spec(rng, n_zones=rng.choice([1, 1, 2]), maxtime=rng.randint(3, 5))
             codes, ckey_map = make_renaming(rng, spec, force_prefix_chars=(m == 0), case_variants=(m == 1))
             return {'kind': 'rename', 'case_variants': m == 1, 'spec': spec, 'codes': codes, 'ckey_map': ckey_map}
         if m in (3, 4):
@@ -230,7 +238,8 @@ class C18(object):
         if base.error is not None:
             return {'verdict': 'notjudged', 'shape': shape + '|base:' + type(base.error).__name__}
         base_E = self.solved(base)
-        other = M.build(spec, codes=case['codes'], ckey_map=case['ckey_map'])
+        # the renamed build gets its names as run-time built string objects (a renaming function's output), the base as literals
+        other = M.build(spec, codes=case['codes'], ckey_map=case['ckey_map'], fresh_currency_strings=True)
         changed = sum(len(v) for v in case['codes'].values()) + len(case['ckey_map'])
         ctx = {'codes': case['codes'], 'countries': case['ckey_map']}
         if other.error is not None:
@@ -249,6 +258,8 @@ class C18(object):
             other_view.names = [n for n in other_E.names if n not in extra]
             compare_exact(rec, base, base_E, other, other_view, ctx, name_map=f)
             rec.count('rename.compared')
+            if any(z['kind'] == 'federation' for z in spec['zones']):
+                rec.count('rename.compared.federation_with_run_time_built_currency_strings')
             if case.get('case_variants'):
                 rec.count('rename.compared.codes_differing_only_by_case')
             if any(cm.get(r) in PREFIX_CHARS for cm in case['codes'].values() for r in ('GOOD', 'LAB')):
@@ -276,7 +287,7 @@ class C18(object):
         rule = bool(case.get('cap_next_to_retained_profits'))
         if rule:
             extras['extra_rule'] = 'shared'
-        joint = M.build(spec, unused_ext=case['unused_ext'], region_default_currency=rdc, **extras)
+        joint = M.build(spec, unused_ext=case['unused_ext'], region_default_currency=rdc, fresh_currency_strings=True, **extras)
         if rule and getattr(joint, 'extra_rule_holders', 0) >= 2:
             rec.count('embed.with_one_equation_object_given_to_households_of_several_economies')
         zone_keys = [[c['key'] for c in z['countries']] for z in spec['zones']]
